@@ -22,6 +22,12 @@ func init() {
 
 func c14() []*Ob {
 	return []*Ob{
+		{Prop: "C14", ID: "C14.12", Engine: "PAIR(two sites)", Floor: 1,
+			Desc:  "the window a sealed fraction is searched in for a fetch never excludes a stored id (shared rule with C04.13)",
+			Check: func(c *Ctx) { findLIDsWindowJustified(c) }},
+		{Prop: "C14", ID: "C14.11", Engine: "PAIR(two sites)", Floor: 1,
+			Desc:  "a fraction list that is cut by its time borders is in sorted order: List.FilterInRange keeps the order of the list, or every function that filters a list and then applies calcEnsuredIDsCount sorts it in between",
+			Check: func(c *Ctx) { filteredListKeepsOrder(c) }},
 		{Prop: "C14", ID: "C14.10", Engine: "SIBLING(mirror)", Floor: 3,
 			Desc:  "a time range that lies before a token's first LIDs block still reaches the blocks behind it: the sealed posting-list iterators end their walk only on the bound ahead of them (shared rule with C03.7)",
 			Check: shared("C03.7")},
@@ -323,6 +329,26 @@ func c14() []*Ob {
 							v, found := BoolFact(FactsAtInstr(ap.(ssa.Instruction)), func(x ssa.Value) bool { return x == i.Value() })
 							if found && v {
 								okKeep = true
+							}
+						}
+					}
+					// or the other way round: start from a copy and drop the fractions whose IsIntersecting is false
+					if !okKeep {
+						for _, b := range fn.Blocks {
+							for _, in := range b.Instrs {
+								sl, ok := in.(*ssa.Slice)
+								if !ok || sl.High == nil {
+									continue
+								}
+								if bo, isBo := sl.High.(*ssa.BinOp); !isBo || bo.Op != token.SUB {
+									continue
+								}
+								for _, i := range is {
+									v, found := BoolFact(FactsAtInstr(sl), func(x ssa.Value) bool { return x == i.Value() })
+									if found && !v {
+										okKeep = true
+									}
+								}
 							}
 						}
 					}
